@@ -8,6 +8,8 @@ import OVM.Hex.EightVerts
 import OVM.Hex.VerticesGeneral
 import OVM.Hex.CheckedConv
 import OVM.Hex.VerticesPattern
+import OVM.Hex.ApiAll
+import OVM.Hex.SheetGeneral
 /-
   C16 — hexahedral kernel: shape and halfface-order invariants, hex navigation.
   Part 1 is about the tables *generated from the C++ sources* (OVM.Gen.HexTables, T2): an edit of an
@@ -53,6 +55,23 @@ import OVM.Hex.VerticesPattern
   convention" assumption for the vertex-based path; `hex_vertices` of the new cell reports the documented pattern
   (`add_cell_vertices_hex_vertices`, symbolic).  The sheet circulators, the orthogonal layout and the two concrete
   cubes: `…_partial` (kernel evaluation on the standard and on a glued cube).
+  Summary of what is general and what is not (after builders' rounds 3-4):
+  * GENERAL (any reachable state, any deletion mode): lengths (`all_ops_preserve_len`), convention and eight distinct
+    vertices of every live cell along histories (`hex_run_api`, `conv_run_api`; renaming invariance `conv_transport`),
+    positions / accessors / opposite halfface (Part 4), CellSheetCellIter (`sheet_cells_general`, builder I1) and
+    HalfFaceSheetHalfFaceIter (`sheet_halffaces_general`), creation by the checked `add_cell(halffaces)`
+    (`checked_add_cell_conv`, `checked_add_cell_eight_distinct`; rejections leave the mesh unchanged), creation by
+    `add_cell(8 vertices)` with fresh or pre-existing faces in any rotation / side: convention, eight vertices,
+    `orthogonal_orientation` layout, `hex_vertices` pattern (`add_cell_vertices_conv`, `add_cell_vertices_shape_layout`,
+    `add_cell_vertices_hex_vertices`), and all 720 permutations of such a hexahedron for all stored rotations
+    (`frame_all_permutations`: never rejected, never stored out of convention).
+  * PARTIAL: that a cell accepted by the checked `add_cell(halffaces)` (closed surface of six proper loop quads, eight
+    vertices, convention) is a `Frame` — the combinatorial classification — is not proved, so for such cells the
+    `orthogonal_orientation` layout, the `hex_vertices` pattern and `frame_all_permutations` are not derived
+    (`hexCopy_all_permutations_partial` covers renamed copies of the standard cube); the layout / pattern predicates
+    are not carried through renumbering operations (only `HexConv` and the vertex count are); `adjacent_halfface_on_sheet`,
+    `adjacent_halfface_on_surface`, `neighboring_outside_halfface` have no specification in OVM/Hex/Spec.lean and are
+    compared model-vs-code only; `add_cell_vertices_cube_partial` / `…_glued_partial` remain as evaluated instances.
 -/
 namespace OVM.Props.C16
 open OVM OVM.Kernel OVM.Gen.HexTables OVM.Kernel.HexAll
@@ -536,6 +555,59 @@ example :
   exact ⟨hs, add_cell_vertices_conv k vs true hi hok.1 (by decide) hu hloop 1 hs,
     add_cell_vertices_hex_vertices k vs true hi hok (by decide) hu hloop 1 hs⟩
 
+/-- the cell created by `add_cell(8 vertices)` has six halffaces and eight distinct vertices, and the layout that
+    `orthogonal_orientation` describes (`hexOrthLayoutB`: for two orientations of different axes the halfface at `o1`
+    shares exactly one halfedge with the halfface at `o2`, and its next halfedge is shared with the halfface at
+    `orthogonal_orientation(o1, o2)`; the generated table is compared with the vertex tables in `tbl_orth`) -/
+theorem add_cell_vertices_shape_layout (k : Kernel) (vs : List Nat) (chk : Bool) (hi : Global.GInv k)
+    (hok : HexOpOK k (.addCellV chk vs)) (hd : vs.Nodup) (hu : UniqEdges k vs)
+    (hloop : ∀ I ∈ cellVFind, ∀ x, k.findHalffaceExtensive (hexPick vs I) = some x → HfLoop k x)
+    (c : Nat) (h : (k.hexAddCellV vs chk).2 = some c) :
+    (k.hexAddCellV vs chk).1.hexCellShapeB c = true ∧ (k.hexAddCellV vs chk).1.hexOrthLayoutB c = true :=
+  ⟨hexAddCellV_shape k vs chk hi hok hd hu hloop c h, hexAddCellV_orthLayout k vs chk hi hok hd hu hloop c h⟩
+
+/-- **every permutation of the halfface list of a hexahedron, whatever the rotations in which its faces are stored**
+    (`Frame`: six loop quads through the vertex quadruples of the source tables over eight distinct vertices — every
+    cell created by `add_cell(8 vertices)` is one, `hexAddCellV_frame`): the topology-checked `add_cell` accepts it,
+    stores a re-arrangement in convention, and a list accepted as given is stored as given with its first two
+    halffaces vertex-disjoint; NO permutation is rejected.  (`check_halfface_ordering` and the re-ordering are run on
+    the index tables for all 720 arrangements and all stored rotations of the first two faces: `tbl_check`,
+    `tbl_reorder_a/b`.)  Generalises `hexCopy_all_permutations_partial` (same rotations as the standard cube). -/
+theorem frame_all_permutations {k : Kernel} {vs xs : List Nat} {rot : Nat → Nat} (F : Frame k vs xs rot) (p : List Nat)
+    (hp : p.Perm xs) :
+    (k.hexAddCell p true).2 = some k.nC ∧ (k.hexAddCell p true).1.hexConvB k.nC = true ∧
+    ((k.hexAddCell p true).1.cellAt k.nC).Perm p ∧
+    (k.hexCheckOrdering p = true → (k.hexAddCell p true).1.cellAt k.nC = p ∧
+      disjointL (k.hfVerts (p.getD 0 0)) (k.hfVerts (p.getD 1 0)) = true) := F.all_permutations p hp
+
+/-- **CellSheetCellIter in general** (builder I1, `Global.sheet_cells_exact`): on a state with the invariant the cells
+    reported for a live cell and a direction are exactly the live cells across the halffaces of the other two axes -/
+theorem sheet_cells_general {k : Kernel} (hi : Global.GInv k) (hb : k.fBU = true) {c : Nat} (hl : k.liveC c = true)
+    {dir : Nat} (hd : dir < 6) :
+    k.cellSheetCells c dir = k.sSheetCells c dir ∧ (k.cellSheetCells c dir).Nodup ∧
+    ∀ x ∈ k.cellSheetCells c dir, k.liveC x = true := Global.sheet_cells_exact hi hb hl hd
+
+/-- **HalfFaceSheetHalfFaceIter in general**: for a halfface of a live six-halfface cell the halffaces reported are
+    exactly the halffaces of the sheet neighbours (the cells across the four halffaces of the other two axes) that
+    contain the opposite of one of its halfedges; the judge's brute-force list `sSheetHalffaces` is contained in it -/
+theorem sheet_halffaces_general {k : Kernel} (hi : Global.GInv k) (hb : k.fBU = true) {hf c : Nat} (hl : k.liveC c = true)
+    (hm : hf ∈ k.cellAt c) (h6 : (k.cellAt c).length = 6) :
+    (∀ x, x ∈ (k.halffaceSheetHalffaces hf).map (·.1) ↔
+      ∃ n ∈ k.sSheetCells c (k.hexOrientation hf c), x ∈ k.cellAt n ∧ ∃ h ∈ k.hfHes hf, opp h ∈ k.hfHes x) ∧
+    (∀ x ∈ k.sSheetHalffaces hf, x ∈ (k.halffaceSheetHalffaces hf).map (·.1)) :=
+  ⟨sheet_halffaces_exact hi hb hl hm h6, sSheetHalffaces_sub hi hb hl hm h6⟩
+
+/-- **`HexShape` and `HexConv` along every history through the public API, all deletion modes**: the global
+    invariant, four halfedges per face and six halffaces per cell (all slots), every live cell in convention, every
+    live cell with eight distinct vertices.  `FullHistoryOK`: valid arguments (`HexOpOK`), `ApiOpOK` (vertex path:
+    distinct vertices, unique edges, found faces are loops; checked halfface path: first two halffaces proper loop
+    quads when accepted as given), and for the unchecked `add_cell(halffaces, false)` — which stores what it is given —
+    "in convention, eight distinct vertices" as the caller's obligation; `set_*` not covered. -/
+theorem hex_run_api (ops : List HexOp) (k : Kernel) (hi : Global.GInv k) (hl : HexLen k) (hq : ConvAll k)
+    (hs : ShapeAll8 k) (hr : FullHistoryOK k ops) :
+    Global.GInv (hexRun k ops) ∧ HexLen (hexRun k ops) ∧ ConvAll (hexRun k ops) ∧ ShapeAll8 (hexRun k ops) :=
+  HexAll.hex_run_api ops k hi hl hq hs hr
+
 /-- **histories through the public API**: with valid arguments (`HexOpOK`), cells created by
     `add_cell(8 vertices)` under the conditions of `add_cell_vertices_conv` or by the topology-checked
     `add_cell(halffaces)` on proper loop quads (`ApiOpOK`; only the UNCHECKED `add_cell(halffaces, false)`, which
@@ -591,5 +663,12 @@ theorem add_cell_vertices_glued_partial :
     (List.range 6).all (fun d => r.1.cellSheetCells 0 d == r.1.sSheetCells 0 d && r.1.cellSheetCells 1 d == r.1.sSheetCells 1 d) = true ∧
     (List.range r.1.nHF).all (fun hf => sortUniq ((r.1.halffaceSheetHalffaces hf).map (·.1)) == r.1.sSheetHalffaces hf) = true ∧
     r.1.cellSheetCells 0 2 = [1] ∧ r.1.cellSheetCells 0 0 = [] := by decide +kernel
+
+/-- non-vacuity: both demo histories (vertex-based creation with a pre-existing rotated face; checked halfface-based
+    creation through the re-ordering and as given) satisfy `FullHistoryOK` -/
+example : FullHistoryOK {} demoOps ∧ FullHistoryOK {} demoOps2 ∧ ShapeAll8 (hexRun {} demoOps) ∧ ShapeAll8 (hexRun {} demoOps2) := by
+  have h1 : FullHistoryOK {} demoOps := full_of_api _ _ (apiHistoryOK_of_B _ _ (by decide +kernel)) (by decide)
+  have h2 : FullHistoryOK {} demoOps2 := full_of_api _ _ (apiHistoryOK_of_B _ _ (by decide +kernel)) (by decide)
+  exact ⟨h1, h2, (hex_reachable_api demoOps h1).2.2.2, (hex_reachable_api demoOps2 h2).2.2.2⟩
 
 end OVM.Props.C16
